@@ -46,11 +46,11 @@ Definition seg_v (s : string) : value := VRec "PathSegment" [("ident", VStr s)].
 (* the content: not a parenthesised list (`require_list` fails with e), or a list that the parser of its kind accepts (ok,
    giving v) or refuses (giving the error v) *)
 Inductive content := NotList (e : value) | IsList (ok : bool) (v : value).
-Record ain := { a_path : list string; a_content : content; a_msg_type : string }.
+Record ain := { a_path : list string; a_content : content; a_msg_type : string; a_resp : value }.
 
 Definition result_v (ok : bool) (v : value) : value := if ok then VCon "Ok" [v] else VCon "Err" [v].
 Definition list_v (a : ain) (ok : bool) (v : value) : value :=
-  VRec "MetaList" [("parsed", result_v ok v); ("msg_type", kind_v (a_msg_type a))].
+  VRec "MetaList" [("parsed", result_v ok v); ("msg_type", kind_v (a_msg_type a)); ("resp_type", a_resp a)].
 Definition meta_v (a : ain) : value :=
   VRec "Meta" [("list", match a_content a with NotList e => VCon "Err" [e] | IsList ok v => VCon "Ok" [list_v a ok v] end)].
 Definition ain_v (a : ain) : value :=
@@ -58,7 +58,7 @@ Definition ain_v (a : ain) : value :=
 
 Definition parser_stub (name : string) : fn_def := stub ("extern::" ++ name) ["attr"] (EField (EVar "attr") "parsed").
 (* a parsed `sv::msg(..)`: its message kind (whatever the attribute says) and the rest *)
-Definition msg_attr_v (ty v : value) : value := VRec "MsgAttr" [("msg_type", ty); ("other", v)].
+Definition msg_attr_v (ty resp v : value) : value := VRec "MsgAttr" [("msg_type", ty); ("resp_type", resp); ("other", v)].
 
 Definition PARSE : program :=
   attrparse_fns ++
@@ -66,7 +66,7 @@ Definition PARSE : program :=
    stub "extern::msg_type" ["m"] (EField (EVar "m") "msg_type");
    stub "extern::MsgAttr::new" ["attr"]
      (EMatch (EField (EVar "attr") "parsed")
-        [(PCon "Ok" [PVar "v"], ECon "Ok" [ERecord "MsgAttr" [("msg_type", EField (EVar "attr") "msg_type"); ("other", EVar "v")] None]);
+        [(PCon "Ok" [PVar "v"], ECon "Ok" [ERecord "MsgAttr" [("msg_type", EField (EVar "attr") "msg_type"); ("resp_type", EField (EVar "attr") "resp_type"); ("other", EVar "v")] None]);
          (PCon "Err" [PVar "e"], ECon "Err" [EVar "e"])]);
    parser_stub "Custom::new"; parser_stub "ContractErrorAttr::new"; parser_stub "ContractMessageAttr::new";
    parser_stub "OverrideEntryPoint::new"; parser_stub "VariantAttrForwarding::new"; parser_stub "MsgAttrForwarding::new";
@@ -127,7 +127,7 @@ Proof.
 Qed.
 
 (* ---- ParsedSylviaAttributes::new: what is collected ---- *)
-Record st := { s_custom : option value; s_error : option value; s_messages : list value; s_msg : option (string * value);
+Record st := { s_custom : option value; s_error : option value; s_messages : list value; s_msg : option (string * value * value);
                s_overrides : list value; s_vattrs : list value; s_mattrs : list value; s_features : value;
                s_data : option value; s_payload : option value; s_diags : list value }.
 
@@ -135,7 +135,7 @@ Definition ov (o : option value) : value := match o with Some v => some v | None
 Definition st_v (s : st) : value :=
   VRec "ParsedSylviaAttributes"
     [("custom_attr", ov (s_custom s)); ("error_attrs", ov (s_error s)); ("messages_attrs", VArr (s_messages s));
-     ("msg_attr", match s_msg s with Some (ty, v) => some (msg_attr_v (kind_v ty) v) | None => none end);
+     ("msg_attr", match s_msg s with Some (ty, resp, v) => some (msg_attr_v (kind_v ty) resp v) | None => none end);
      ("override_entry_point_attrs", VArr (s_overrides s)); ("variant_attrs_forward", VArr (s_vattrs s));
      ("msg_attrs_forward", VArr (s_mattrs s)); ("sv_features", s_features s); ("data", ov (s_data s));
      ("payload", ov (s_payload s)); ("__diags", VArr (s_diags s))].
@@ -150,7 +150,7 @@ Definition diag (s : st) (m : string) : st :=
      s_diags := s_diags s ++ [VStr m] |}.
 
 (* one attribute with a list content, of kind k, whose content parses (ok) to v or fails *)
-Definition collect (s : st) (k : svkind) (ok : bool) (v : value) (ty : string) : st :=
+Definition collect (s : st) (k : svkind) (ok : bool) (v : value) (ty : string) (resp : value) : st :=
   match k with
   | KCustom => match s_custom s with
                | None => if ok then {| s_custom := Some v; s_error := s_error s; s_messages := s_messages s; s_msg := s_msg s;
@@ -167,7 +167,7 @@ Definition collect (s : st) (k : svkind) (ok : bool) (v : value) (ty : string) :
               | Some _ => diag s "The attribute `sv::error` is redefined"
               end
   | KMsg => match s_msg s with
-            | None => if ok then {| s_custom := s_custom s; s_error := s_error s; s_messages := s_messages s; s_msg := Some (ty, v);
+            | None => if ok then {| s_custom := s_custom s; s_error := s_error s; s_messages := s_messages s; s_msg := Some (ty, resp, v);
                                     s_overrides := s_overrides s; s_vattrs := s_vattrs s; s_mattrs := s_mattrs s;
                                     s_features := s_features s; s_data := s_data s; s_payload := s_payload s; s_diags := s_diags s |}
                       else s
@@ -205,7 +205,7 @@ Definition collect (s : st) (k : svkind) (ok : bool) (v : value) (ty : string) :
 (* one attribute of the item *)
 Definition step (s : st) (a : ain) : st :=
   match classify (a_path a), a_content a with
-  | Some k, IsList ok v => collect s k ok v (a_msg_type a)
+  | Some k, IsList ok v => collect s k ok v (a_msg_type a) (a_resp a)
   | Some KData, NotList _ =>          (* `#[sv::data]` without parameters *)
       {| s_custom := s_custom s; s_error := s_error s; s_messages := s_messages s; s_msg := s_msg s;
          s_overrides := s_overrides s; s_vattrs := s_vattrs s; s_mattrs := s_mattrs s; s_features := s_features s;
@@ -217,7 +217,7 @@ Definition step (s : st) (a : ain) : st :=
 (* after the last attribute: `sv::attr` on an instantiate / migrate handler is refused *)
 Definition finish (s : st) : st :=
   match s_vattrs s, s_msg s with
-  | _ :: _, Some (ty, _) =>
+  | _ :: _, Some (ty, _, _) =>
       if "Instantiate" =? ty then diag s "The attribute `sv::attr` is not supported for `instantiate`"
       else if "Migrate" =? ty then diag s "The attribute `sv::attr` is not supported for `migrate`"
       else s
@@ -255,14 +255,14 @@ Proof.
     assert (Hm : nth_error (map ain_v l) j = Some (ain_v a)) by (rewrite nth_error_map, Hnth; reflexivity).
     rewrite (firstn_snoc _ _ _ Hnth), fold_left_snoc.
     generalize (fold_left step (firstn j l) init). intros s.
-    destruct s as [c e ms m ov' va ma f dt pl dg]. destruct a as [path cont ty].
-    unfold step. cbn [a_path a_content a_msg_type].
+    destruct s as [c e ms m ov' va ma f dt pl dg]. destruct a as [path cont ty rs].
+    unfold step. cbn [a_path a_content a_msg_type a_resp].
     assert (Hsv : calls PARSE (S (S d)) "SylviaAttribute::new"
-                    [ain_v {| a_path := path; a_content := cont; a_msg_type := ty |}] (CVal (kopt (classify path))))
+                    [ain_v {| a_path := path; a_content := cont; a_msg_type := ty; a_resp := rs |}] (CVal (kopt (classify path))))
       by (apply (translated_sv_new d path)).
     destruct (classify path) as [k|]; destruct cont as [e0|ok v];
-      [ destruct k; try destruct c; try destruct e; try destruct m as [[? ?]|]
-      | destruct k; destruct ok; try destruct c; try destruct e; try destruct m as [[? ?]|]
+      [ destruct k; try destruct c; try destruct e; try destruct m as [[[? ?] ?]|]
+      | destruct k; destruct ok; try destruct c; try destruct e; try destruct m as [[[? ?] ?]|]
       | | destruct ok ];
       (eexists; eexists; split;
         [ eapply ev_block; [|reflexivity];
@@ -290,7 +290,7 @@ Proof.
           | k ]
       | reflexivity ].
     destruct va as [|x va]; [front Hfor Hlen ltac:(apply (evals_stmts_compute_calls _ 40); intros gg hh; reflexivity)|].
-    destruct m as [[ty mv]|]; [|front Hfor Hlen ltac:(apply (evals_stmts_compute_calls _ 40); intros gg hh; reflexivity)].
+    destruct m as [[[ty rs] mv]|]; [|front Hfor Hlen ltac:(apply (evals_stmts_compute_calls _ 40); intros gg hh; reflexivity)].
     destruct ("Instantiate" =? ty) eqn:Ei.
     { front Hfor Hlen ltac:(apply (evals_stmts_compute_calls _ 40); intros gg hh; simpl; rewrite Ei; reflexivity). }
     destruct ("Migrate" =? ty) eqn:Em.
